@@ -10,6 +10,10 @@ Generates lean/CelloGen/Thr.lean:
     GC_New/GC_Del, Exception_New/Exception_Del, alloc_by/del_by, start_in/stop_in, the `with` macros, the Mutex
     instance table) its body for the UNIX configuration, comment-free and whitespace-normalised;
     `shapeModelled` — the same texts as they were when the model was written.
+  * `threadMarkUnguarded : Bool` — `Thread_Mark` marks `t->tls` without testing `self is current(Thread)`, `Thread` has
+    that `Mark` instance, `GC_Recurse` dispatches to the `Mark` instance of any object it meets and `Thread` is not
+    among its leaf types: the mark phase of one thread walks the thread-local table of every Thread object it reaches
+    (`Cfg.foreignMark`, KF-C13-mark-foreign-tls);
 Theorems `C13_source_shape_as_modelled` and `C13_error_translation_current_source` are stated about these definitions.
 """
 import re
@@ -71,6 +75,10 @@ EXPECTED = {
  'Thread_Rem': 'struct Thread* t = self; rem(t->tls, key);',
  'Thread_Mark': 'struct Thread* t = self; mark(t->tls, gc, f);',
  'Thread_New': 't->tls = new_raw(Table, String, Ref);',
+ 'Thread_Del': 'struct Thread* t = self; if (t->args isnt NULL) { del_raw(t->args); } del_raw(t->tls);',
+ 'Thread_Assign': 'struct Thread* t = self; struct Thread* o = cast(obj, Thread); t->func = o->func; t->tls = t->tls ? t->tls : alloc_raw(Table); assign(t->tls, o->tls);',
+ 'Thread_Mark_instance': 'Instance(Mark, Thread_Mark)',
+ 'GC_Recurse_mark': 'struct Mark* m = type_instance(type, Mark); if (m and m->mark) { m->mark(ptr, gc, (void(*)(var,void*))GC_Mark_And_Recurse); return; }',
  'Mutex_New': 'struct Mutex* m = self; pthread_mutex_init(&m->mutex, NULL);',
  'Mutex_Lock': 'struct Mutex* m = self; int err = pthread_mutex_lock(&m->mutex); if (err is EINVAL) { throw(ValueError, "Invalid Argument to Mutex Lock"); } if (err is EDEADLK) { throw(ResourceError, "Attempt to relock already held mutex"); }',
  'Mutex_Trylock': 'struct Mutex* m = self; int err = pthread_mutex_trylock(&m->mutex); if (err == EBUSY) { return false; } if (err is EINVAL) { throw(ValueError, "Invalid Argument to Mutex Lock Try"); } return true;',
@@ -102,6 +110,21 @@ def gen_thr(repo):
     m = re.search(r't->tls\s*=\s*new_raw\([^;]*\)\s*;', func_body(th, 'Thread_New'))
     if not m: raise ExtractError('Thread_New: creation of the tls table not found')
     shape['Thread_New'] = norm(m.group(0))
+    shape['Thread_Del'] = first_body(th, 'Thread_Del')
+    shape['Thread_Assign'] = first_body(th, 'Thread_Assign')
+    m = re.search(r'var\s+Thread\s*=\s*Cello\s*\(\s*Thread\s*,', th)
+    if not m: raise ExtractError('var Thread = Cello(Thread, …) not found')
+    tdecl = th[m.end():balanced(th, th.index('(', m.start()))]
+    mi = re.search(r'Instance\s*\(\s*Mark\s*,[^)]*\)', tdecl)
+    shape['Thread_Mark_instance'] = norm(re.sub(r'\s*,\s*', ', ', re.sub(r'\(\s*', '(', mi.group(0)))) if mi else 'none'
+    rec = first_body(gc, 'GC_Recurse')
+    mr = re.search(r'struct Mark\* m = type_instance\(type, Mark\); if \(m and m->mark\) \{ m->mark\(ptr, gc, [^;]*\); return; \}', rec)
+    shape['GC_Recurse_mark'] = mr.group(0) if mr else 'none'
+    tm = shape['Thread_Mark']
+    if 'mark(t->tls' not in tm: raise ExtractError('Thread_Mark: marking of the thread-local table not found')
+    guarded = re.search(r'if\s*\([^{;]*current\(Thread\)[^{;]*\)\s*\{?\s*mark\(t->tls', tm) is not None
+    unguarded = (not guarded) and mi is not None and 'Thread_Mark' in mi.group(0) and mr is not None \
+        and re.search(r'type is Thread\b', rec) is None
     m = re.search(r'var\s+Mutex\s*=\s*Cello\s*\(\s*Mutex\s*,', th)
     if not m: raise ExtractError('var Mutex = Cello(Mutex, …) not found')
     decl = th[m.end():balanced(th, th.index('(', m.start()))]
@@ -158,6 +181,10 @@ def gen_thr(repo):
     out += f'def trylockDefault : String := {lean_str(trydef)}\n\n'
     out += '/-- does the epilogue of `Thread_Init_Run` delete the collector (teardown sweep) before the exception record? -/\n'
     out += f"def teardownGcFirst : Bool := {'true' if gc_first else 'false'}\n\n"
+    out += '/-- the mark phase of one thread walks the thread-local table of every Thread object it reaches: `Thread_Mark` marks\n'
+    out += '    `t->tls` of whatever Thread object it is handed (no `self is current(Thread)` test), `GC_Recurse` hands it every\n'
+    out += '    object that has a `Mark` instance -/\n'
+    out += f"def threadMarkUnguarded : Bool := {'true' if unguarded else 'false'}\n\n"
     out += '/-- the functions the thread model mirrors, as they are in /repo now (UNIX configuration, collector enabled) -/\n'
     out += 'def shape : List (String × String) :=\n  ' + pairs(shape) + '\n\n'
     out += '/-- the same texts when lean/Cello/Threads.lean was written -/\n'
